@@ -1,0 +1,88 @@
+//! Hooks used by the external verification harness.
+//!
+//! This module only exists when the crate is compiled with
+//! `--cfg deadpool_verif`. It must never be enabled in production builds.
+
+use std::cell::RefCell;
+
+type Hook = Box<dyn FnMut(&'static str)>;
+
+thread_local! {
+    static HOOK: RefCell<Option<Hook>> = const { RefCell::new(None) };
+}
+
+/// Installs (or removes) the schedule point callback of the current thread.
+pub fn set_hook(hook: Option<Hook>) {
+    HOOK.with(|h| *h.borrow_mut() = hook);
+}
+
+/// A schedule point. Calls the callback installed for the current thread,
+/// if there is one, and does nothing otherwise.
+#[inline]
+pub fn point(site: &'static str) {
+    // `try_with` and `try_borrow_mut`: points are also hit by destructors
+    // which run while a thread is being torn down or while the callback
+    // itself is running.
+    let _ = HOOK.try_with(|h| {
+        if let Ok(mut h) = h.try_borrow_mut() {
+            if let Some(f) = h.as_mut() {
+                f(site);
+            }
+        }
+    });
+}
+
+/// A schedule point which is hit when the value is dropped.
+#[derive(Debug)]
+pub struct PointOnDrop(Option<&'static str>);
+
+impl PointOnDrop {
+    /// Creates a guard hitting `site` when dropped.
+    pub fn new(site: &'static str) -> Self {
+        Self(Some(site))
+    }
+    /// Drops the guard without hitting the schedule point.
+    pub fn disarm(mut self) {
+        self.0 = None;
+    }
+}
+
+impl Drop for PointOnDrop {
+    fn drop(&mut self) {
+        if let Some(site) = self.0 {
+            point(site);
+        }
+    }
+}
+
+/// Internal state of a managed pool.
+#[derive(Clone, Copy, Debug, Default, PartialEq, Eq)]
+pub struct ManagedSnapshot {
+    /// Free permits of the semaphore.
+    pub permits: usize,
+    /// Whether the semaphore is closed.
+    pub closed: bool,
+    /// The `users` counter.
+    pub users: usize,
+    /// `(size, creating, max_size, idle)` unless the slots are locked.
+    pub slots: Option<(usize, usize, usize, usize)>,
+}
+
+/// Internal state of an unmanaged pool.
+#[derive(Clone, Copy, Debug, Default, PartialEq, Eq)]
+pub struct UnmanagedSnapshot {
+    /// Free permits of the object semaphore.
+    pub permits: usize,
+    /// Free permits of the size semaphore.
+    pub size_permits: usize,
+    /// Whether the object semaphore is closed.
+    pub closed: bool,
+    /// Whether the size semaphore is closed.
+    pub size_closed: bool,
+    /// The `size` counter.
+    pub size: usize,
+    /// The `available` counter.
+    pub available: isize,
+    /// Length of the queue unless it is locked.
+    pub queue: Option<usize>,
+}
